@@ -408,7 +408,7 @@ def history_items(tier, seed):
     rng = random.Random(seed)
     full_n = 3 if tier == "quick" else 4
     top_n = 4 if tier == "quick" else 5
-    n_top = 400 if tier == "quick" else 6000
+    n_top = 3000 if tier == "quick" else 12000
     items = []
     for mp in MP:
         for rp in RP:
